@@ -180,8 +180,11 @@ impl Scenario for C03 {
             // at a step boundary (+-1), or somewhere inside the operator that runs at that step
             let i = rng.usize(traj.len());
             let c = traj[i].cost;
+            let inside = rng.bool();
             target.max_cost = match traj.get(i + 1) {
-                Some(n) if rng.bool() && n.cost > c + 1 => c + 1 + rng.below(n.cost - c - 1),
+                Some(n) if inside && n.cost > c + 1 => c + 1 + rng.below(n.cost - c - 1),
+                // the last step (the run ended or failed inside it): some way into that operator
+                None if inside => c + 1 + rng.below(1200),
                 _ => (c + rng.below(3)).saturating_sub(1),
             }
             .max(1);
